@@ -10,7 +10,7 @@
     * every case line of corpus/C06 and every case line of corpus/C07 without allocation failure
       and without printer calls, transcribed op by op (tools: ocaml/h_core.ml [parse_op]), is accepted. *)
 From CJ Require Import Base Dbl Heap Forest CoreSpec CoreDefs CoreRefineHistory CoreRefineHistoryObj
-  CoreRefineCreate CoreHistoryAllSteps CoreHistoryAll CoreLedgerAll CoreOpsBridge CoreOpsBridgeHist.
+  CoreRefineCreate CoreHistoryAllSteps CoreHistoryAll CoreLedgerAll CoreOpsBridge CoreOpsBridgeHist CoreOpsBridgeOwned.
 From CJ Require CoreOps.
 From Coq Require Import Floats.SpecFloat.
 From stdpp Require Import gmap.
@@ -50,7 +50,7 @@ Definition exB : list CoreOps.op :=
    CoreOps.ODelete (IH 10);
    CoreOps.ODelete (IH 0)].
 
-Lemma exB_accepted : accepted exB = true.
+Lemma exB_accepted : accepted_rules exB = true.
 Proof. vm_compute. reflexivity. Qed.
 
 Definition P (n : positive) : ptr := Some n.
@@ -65,7 +65,7 @@ Definition exB_pools : CoreOps.state :=
 
 (** the list model's results and final pools *)
 Lemma exB_model :
-  match runS empty_state S0 exB with Some (xs, st, S') => Some (xs, st, a_forest S') | None => None end =
+  match runR empty_state S0 exB with Some (xs, st, S') => Some (xs, st, a_forest S') | None => None end =
   Some (exB_results, exB_pools, []).
 Proof. vm_compute. reflexivity. Qed.
 
@@ -93,8 +93,8 @@ Proof. vm_compute. split; [reflexivity|]. split; [eexists; reflexivity|reflexivi
 Corollary exB_history :
   exists h', run_ops nv empty_state exB empty_heap = Ret ((exB_results, exB_pools), h') /\ lib_live h' = ∅.
 Proof.
-  pose proof exB_model as E. destruct (runS empty_state S0 exB) as [[[xs st] S']|] eqn:Er; [|done].
-  injection E as -> -> HF. destruct (ledger_extracted _ _ _ _ Er) as (h1 & h2 & H1 & HA & _).
+  pose proof exB_model as E. destruct (runR empty_state S0 exB) as [[[xs st] S']|] eqn:Er; [|done].
+  injection E as -> -> HF. destruct (ledger_extracted_rules _ _ _ _ Er) as (h1 & h2 & H1 & HA & _).
   exists h1. split; [done|]. by apply (Abs3_no_roots _ _ HA).
 Qed.
 
@@ -254,17 +254,17 @@ Definition case_C07_key_ownership_change_2 : list CoreOps.op :=
    (CoreOps.ODelete (IH 1))].
 
 Lemma corpus_cases_accepted :
-  accepted case_C06_f4_insert_self_1 = true /\
-  accepted case_C06_f4_insert_self_2 = true /\
-  accepted case_C06_f4_insert_self_3 = true /\
-  accepted case_C06_first_folded_match_1 = true /\
-  accepted case_C06_first_folded_match_2 = true /\
-  accepted case_C06_single_child_replace_then_append_1 = true /\
-  accepted case_C06_single_child_replace_then_append_2 = true /\
-  accepted case_C06_single_child_replace_then_append_3 = true /\
-  accepted case_C07_f5_replace_key_alias_1 = true /\
-  accepted case_C07_f5_replace_key_alias_2 = true /\
-  accepted case_C07_f5_replace_key_alias_3 = true /\
-  accepted case_C07_key_ownership_change_1 = true /\
-  accepted case_C07_key_ownership_change_2 = true.
+  accepted_rules case_C06_f4_insert_self_1 = true /\
+  accepted_rules case_C06_f4_insert_self_2 = true /\
+  accepted_rules case_C06_f4_insert_self_3 = true /\
+  accepted_rules case_C06_first_folded_match_1 = true /\
+  accepted_rules case_C06_first_folded_match_2 = true /\
+  accepted_rules case_C06_single_child_replace_then_append_1 = true /\
+  accepted_rules case_C06_single_child_replace_then_append_2 = true /\
+  accepted_rules case_C06_single_child_replace_then_append_3 = true /\
+  accepted_rules case_C07_f5_replace_key_alias_1 = true /\
+  accepted_rules case_C07_f5_replace_key_alias_2 = true /\
+  accepted_rules case_C07_f5_replace_key_alias_3 = true /\
+  accepted_rules case_C07_key_ownership_change_1 = true /\
+  accepted_rules case_C07_key_ownership_change_2 = true.
 Proof. vm_compute. repeat split. Qed.
